@@ -246,7 +246,7 @@ impl Gen {
             Cmd::Function(n, i, o, _) => env.funcs.push(FSig { name: *n, ctor: false, rel: false, ins: i.clone(), out: *o }),
             Cmd::Constructor(n, i, o) => env.funcs.push(FSig { name: *n, ctor: true, rel: false, ins: i.clone(), out: *o }),
             Cmd::Relation(n, i) => env.funcs.push(FSig { name: *n, ctor: true, rel: true, ins: i.clone(), out: *n }),
-            Cmd::Ruleset(n) => env.rulesets.push(*n),
+            Cmd::Ruleset(n) | Cmd::Combined(n, _) => env.rulesets.push(*n),
             Cmd::Rule(..) | Cmd::Rewrite { .. } => env.rules.push(c.clone()),
             Cmd::Push => {
                 let e = env.clone();
@@ -946,8 +946,22 @@ pub fn mutate(env: &Env, class: &'static str, r: &mut Rng, m: &mut usize, rule_i
         }
         "unknown-name" => {
             let u = fresh();
-            match r.below(4) {
+            match r.below(5) {
                 0 => mk("unknown-name/run-ruleset", Cmd::Run(Some(u), 1), vec![Cmd::Ruleset(u), Cmd::Run(Some(u), 1)]),
+                4 => {
+                    // a combined ruleset naming a sub-ruleset that does not exist (alone or next to
+                    // an existing one): rejected, the name stays free, nothing dangles
+                    let c = fresh();
+                    let mut subs = vec![u];
+                    if !env.rulesets.is_empty() && r.chance(1, 2) {
+                        subs.insert(0, *r.pick(&env.rulesets));
+                    }
+                    mk(
+                        "unknown-name/combined-sub-ruleset",
+                        Cmd::Combined(c, subs),
+                        vec![Cmd::Run(Some(c), 1), Cmd::Ruleset(c), Cmd::Run(Some(c), 1), Cmd::Ruleset(u), Cmd::Run(Some(u), 1)],
+                    )
+                }
                 1 => mk("unknown-name/print-size", Cmd::PrintSize(u), vec![]),
                 2 => {
                     if env.funcs.is_empty() {
